@@ -60,6 +60,8 @@
 #include "Fractures/FracEnviron.hpp"
 #include "Fractures/FracFamily.hpp"
 #include "Fractures/FracFault.hpp"
+#include "OutputFormat/GridZycor.hpp"
+#include "OutputFormat/GridIfpEn.hpp"
 #undef private
 #undef protected
 
@@ -594,6 +596,43 @@ static std::string run(const Sx& c) {
     o << "(" << sx_b(okd) << " " << sx_b(m != nullptr) << " " << sx_b(exists) << ")";
     delete n; delete m;
     ASerializable::unsetContainerName(); ASerializable::unsetPrefixName();
+  } else if (kind == 4) {
+    // grid exchange formats written and read back: (4 fmt nx dx x0 angles columns)   fmt 0 = Zycor, 1 = IfpEn
+    int fmt = (int) c[1].i();
+    VectorInt nx = VI(c[2]);
+    space((int) nx.size());
+    DbGrid* g = DbGrid::create(nx, VD(c[3]), VD(c[4]), VD(c[5]), ELoadBy::COLUMN, VectorDouble(), VectorString(), VectorString(), false, false);
+    if (g == nullptr) return "(-995 0)";
+    VectorInt cols;
+    int k = 0;
+    for (auto& col : c[6].l) { int iuid = g->addColumns(VD(col), "v" + std::to_string(++k), ELoc::Z, k - 1); cols.push_back(iuid); }
+    std::string f = path(fmt == 0 ? "grid.zycor" : "grid.ifpen");
+    std::remove(f.c_str());
+    bool okw = false; DbGrid* h = nullptr;
+    mark("grid-write");
+    if (fmt == 0) { GridZycor w(f.c_str(), g); w.setCols(cols); if (w.isAuthorized()) okw = (w.writeInFile() == 0); }
+    else { GridIfpEn w(f.c_str(), g); w.setCols(cols); if (w.isAuthorized()) okw = (w.writeInFile() == 0); }
+    mark("grid-read");
+    if (okw) { if (fmt == 0) { GridZycor r(f.c_str()); h = r.readGridFromFile(); } else { GridIfpEn r(f.c_str()); h = r.readGridFromFile(); } }
+    mark("done");
+    o << "(" << sx_b(okw) << " " << sx_b(h != nullptr);
+    if (h != nullptr) {
+      o << " " << sx_vi(h->getNXs()) << " " << sx_vdd(h->getDXs()) << " " << sx_vdd(h->getX0s()) << " " << sx_vdd(h->getAngles()) << " (";
+      // the columns that are not coordinates, in order
+      bool first = true;
+      for (int j = 0; j < h->getColumnNumber(); j++) {
+        ELoc t; int idx; h->getLocatorByColIdx(j, &t, &idx);
+        if (t == ELoc::X) continue;
+        std::string nm = h->getNameByColIdx(j); if (nm == "rank") continue;
+        if (!first) o << " "; first = false;
+        o << "(";
+        for (int i = 0; i < h->getSampleNumber(); i++) { if (i) o << " "; o << sx_d(h->getValueByColIdx(i, j)); }
+        o << ")";
+      }
+      o << ")";
+    }
+    o << ")";
+    delete g; delete h;
   } else if (kind == 5) {
     // which covariance types have a range / a third parameter: ((type hasRange hasParam) ...)
     space(2);
